@@ -1,9 +1,6 @@
 #![allow(dead_code, unused_imports, clippy::all)]
-#![cfg_attr(kani, feature(allocator_api))]
 extern crate alloc;
 pub mod util;
-#[cfg(kani)]
-pub mod hm;
 #[cfg(kani)]
 mod c06;
 #[cfg(kani)]
